@@ -49,6 +49,8 @@ const NANOSECONDS_PER_SECOND: i32 = 1_000_000_000;
 mod tests;
 #[cfg(slawlor_ractor_verif)]
 pub mod verif_gate;
+#[cfg(slawlor_ractor_verif)]
+pub mod verif_remote;
 
 #[derive(Debug)]
 enum AuthenticationState {
